@@ -132,7 +132,9 @@ EvNode(nd, st, d, C) ==
            IN [st EXCEPT !.items = IF st.specs THEN @ ELSE Append(@, [id |-> nd.id, v |-> v, x |-> x]),
                          !.px = x,
                          !.rng = IF nd.rnd THEN @ + 1 ELSE @,
-                         !.refs = IF nd.ref > 0 /\ ~st.specs THEN @ \cup {<<nd.id, nd.ref>>} ELSE @,
+                         \* (the instance of a template is not the template: it depends on what the
+                         \* reuse element refers to, under the reuse element's identity)
+                         !.refs = IF nd.ref > 0 /\ ~st.specs THEN @ \cup {<<IF st.inl > 0 THEN st.inl ELSE nd.id, nd.ref>>} ELSE @,
                          !.unr = Append(@, cp)]
       [] nd.k \in {"g", "cont"} ->
            LET s0 == [st EXCEPT !.inl = IF @ > 0 THEN -1 ELSE @]
